@@ -8,6 +8,7 @@ Uses the C14 results `c14_fast_broadcast_sound` (cycles/repeats = reference broa
 import RtenVerif.Props.C13
 import RtenVerif.Props.C14
 import RtenVerif.Model.InPlaceView
+import RtenVerif.Lemmas.IterDistinct
 
 namespace RtenVerif.Layout
 open RtenVerif.Overlap RtenVerif.FastBroadcast RtenVerif.InPlace RtenVerif.Layout.Seq
@@ -109,6 +110,21 @@ theorem c13_view_in_place_eq_run {α β : Type} (f : α → β → α) (a : View
   have hsa : (tensOf a sa).shape = sizes a.dims := rfl
   have hsb : (tensOf b sb).shape = sizes b.dims := rfl
   rw [hsa, hsb, hshape, Option.map_some, bcastTo_self (tensOf a sa).data (sizes a.dims) (tensOf_data_length a sa)]
+
+/-- **C13 T1 (views), with the owned-tensor invariant instead of the raw hypothesis.** Owned tensors
+are built through `from_data_with_strides` / `from_shape_and_strides(DisallowOverlap)`, i.e. their
+layout passes `may_have_internal_overlap = false`; by C08 (`c08_no_overlap_injective`, via C07's
+`rowMajor_nodup`) their offsets are pairwise distinct, which is the `hnd` hypothesis above. -/
+theorem c13_view_in_place_eq_run_no_overlap {α β : Type} (f : α → β → α) (a : View) (sa : Nat → α)
+    (b : View) (sb : Nat → β)
+    (hcan : canRunInPlace (sizes a.dims) (sizes b.dims) = true)
+    (hno : mayOverlap a.dims = false) :
+    some (tensOf a (binaryOpInPlaceView f a sa b sb)) = binop f (tensOf a sa) (tensOf b sb) := by
+  apply c13_view_in_place_eq_run f a sa b sb hcan
+  have h := RtenVerif.Iter.rowMajor_nodup a.dims hno
+  unfold List.Nodup at h ⊢
+  rw [List.pairwise_map]
+  exact h.imp (fun hne heq => hne (Nat.add_left_cancel heq))
 
 /-- A transposed 2×3 owned operand (offsets 0,2,4,1,3,5: distinct) plus a row vector; general
 path; the storage is updated in place and reads back as the out-of-place result. -/
